@@ -27,6 +27,15 @@ def run(cls, path):
     if hasattr(st, "from_replay"):
         case = st.from_replay(case)
     prev = rp.get("previous_inputs")
+    try:
+        return _replay(rp, chk, st, harness, case, prev, path)
+    except C.HarnessDied as e:
+        print("the code under test terminated the harness process (exit status %s) on this input:\n%s" % (e.rc, e.stderr[-600:]))
+        print("VIOLATION property=%s replay=%s" % (chk.pid, path))
+        return 1
+
+
+def _replay(rp, chk, st, harness, case, prev, path):
     if prev:
         # history-dependent stream: the recorded preceding calls first, in the same harness process
         pcs = list(prev)                      # recorded exactly as the harness process saw them
